@@ -50,6 +50,8 @@ def main(argv):
         res = direct.c10_case(_case(d["class"]), d["seed"], d["pre"], d["ncont"])
     elif chk == "c11_case":
         res = direct.c11_case(_case(d["class"]), d["seed"], None, d["layout"])
+    elif chk == "c14_case":
+        res = direct.c14_case(_case(d["class"]), d["seed"], d["pre"])
     elif chk == "ctor_defaults":
         import torcheval.metrics as M
         try:
